@@ -86,9 +86,11 @@ def coq_sources():
     return sorted(os.path.join(COQ, "theories", f) for f in os.listdir(os.path.join(COQ, "theories")) if f.endswith(".v"))
 
 
-def grep_gate():
+def grep_gate(pid=None):
     bad = []
-    for p in coq_sources() + [os.path.join(COQ, "extract", "Extract.v")]:
+    if pid is None: files = coq_sources()
+    else: files = [os.path.join(COQ, "theories", m + ".v") for m in nm_deps("Properties_%s" % pid)]
+    for p in files:
         txt = re.sub(r"\(\*.*?\*\)", "", open(p).read(), flags=re.S)
         for i, line in enumerate(txt.split("\n"), 1):
             if FORBIDDEN.search(line): bad.append("%s:%d: %s" % (os.path.relpath(p, VERIF), i, line.strip()))
@@ -100,6 +102,9 @@ def coq_build(target_vo, timeout=1500):
     with Lock("coq"):
         mk = os.path.join(COQ, "Makefile")
         proj = os.path.join(COQ, "_CoqProject")
+        want = "-Q theories NM\n" + "".join("theories/%s\n" % os.path.basename(f) for f in coq_sources())
+        if (not os.path.exists(proj)) or open(proj).read() != want:
+            open(proj, "w").write(want)
         if (not os.path.exists(mk)) or os.path.getmtime(mk) < os.path.getmtime(proj):
             subprocess.run(["coq_makefile", "-f", "_CoqProject", "-o", "Makefile"], cwd=COQ,
                            stdout=subprocess.DEVNULL, stderr=subprocess.DEVNULL, check=True)
@@ -146,18 +151,38 @@ def print_assumptions(pid, names):
 
 # ----------------------------------------------------------------------------- OCaml model
 
-def build_model():
-    srcs = coq_sources() + [os.path.join(COQ, "extract", "Extract.v"), os.path.join(VERIF, "ocaml", "driver.ml"),
-                            os.path.join(VERIF, "ocaml", "build.sh")]
-    key = sha_files(srcs)[:16]
-    d = os.path.join(BUILD, "extract")
+def nm_deps(module, seen=None):
+    """transitive closure of 'From NM Require Import ...' starting at a module name"""
+    seen = seen if seen is not None else []
+    if module in seen: return seen
+    p = os.path.join(COQ, "theories", module + ".v")
+    if not os.path.exists(p): return seen
+    seen.append(module)
+    txt = re.sub(r"\(\*.*?\*\)", "", open(p).read(), flags=re.S)
+    for m in re.finditer(r"From\s+NM\s+Require\s+(?:Import|Export)\s+([^.]+)\.", txt):
+        for d in m.group(1).split():
+            nm_deps(d, seen)
+    return seen
+
+
+def build_model(prop):
+    """extract prop.MODEL_MODULES and build the OCaml runner with prop.HANDLERS; one runner per property"""
+    mods = list(prop.MODEL_MODULES); handlers = list(prop.HANDLERS)
+    allmods = []
+    for m in mods: nm_deps(m, allmods)
+    srcs = [os.path.join(COQ, "theories", m + ".v") for m in allmods] + \
+           [os.path.join(VERIF, "ocaml", f) for f in handlers + ["common.ml", "main.ml", "build.sh"]]
+    key = sha_files(srcs)[:16] + " " + " ".join(mods) + " " + " ".join(handlers)
+    d = os.path.join(BUILD, "extract", prop.ID)
     stamp = os.path.join(d, "stamp")
-    with Lock("ocaml"):
+    with Lock("ocaml-" + prop.ID):
         if os.path.exists(stamp) and open(stamp).read() == key and os.path.exists(os.path.join(d, "model")):
             return os.path.join(d, "model")
-        # Extract.v needs every model module compiled
-        coq_build("all")   # -k: builds every module it can; Extract.v only needs the model modules
-        r = subprocess.run([os.path.join(VERIF, "ocaml", "build.sh"), d], stdout=subprocess.PIPE, stderr=subprocess.STDOUT, text=True, timeout=900)
+        for m in mods:
+            ok, out = coq_build("theories/%s.vo" % m)
+            if not ok: raise CheckBroken("model module %s does not build:\n%s" % (m, out[-3000:]))
+        r = subprocess.run([os.path.join(VERIF, "ocaml", "build.sh"), d, " ".join(mods), " ".join(handlers)],
+                           stdout=subprocess.PIPE, stderr=subprocess.STDOUT, text=True, timeout=900)
         if r.returncode != 0:
             raise CheckBroken("model runner build failed:\n" + r.stdout[-4000:])
         open(stamp, "w").write(key)
@@ -268,7 +293,8 @@ class Result:
 
 
 def default_equal(a, b):
-    return a == b
+    # canonicalise whitespace only (printing differences are not behaviour)
+    return a == b or " ".join(a.split()) == " ".join(b.split())
 
 
 def judge(prop, cases, impl, model_out, res, known, flavour_tag=""):
@@ -323,7 +349,7 @@ def run_check(prop, tier, seed):
     notes = []
 
     # ---- 1. proofs
-    gate = grep_gate()
+    gate = grep_gate(pid)
     ok, out = coq_build("theories/Properties_%s.vo" % pid)
     names = property_theorems(pid)
     assum = None
@@ -347,7 +373,7 @@ def run_check(prop, tier, seed):
         res.obligations.append(("grep gate (no Admitted/Axiom/...)", True, ""))
 
     # ---- 2. model runner
-    model_bin = build_model()
+    model_bin = build_model(prop)
 
     # ---- 3/4. correspondence
     rng = random.Random(seed)
@@ -444,7 +470,7 @@ def replay(prop, path):
     if "case" not in r:
         print(json.dumps(r, indent=1)); return 1
     line = r["case"]
-    model_bin = build_model()
+    model_bin = build_model(prop)
     mo = run_lines(model_bin, [line], shards=1)[0].split("\t")
     print("case     :", line)
     print("model    :", mo[0]); print("spec     :", mo[1]); print("in-domain:", mo[2])
@@ -465,6 +491,16 @@ TRUSTED_BASE = [
     "Coq 8.16.1 kernel (coqc, full .vo build; no native_compute; vm_compute only in finite sweeps / witnesses)",
     "axioms: none (Print Assumptions: Closed under the global context for every property theorem)",
     "extraction: ExtrOcamlBasic only, Separate Extraction, no Extract Constant / extra Extract Inductive; OCaml 4.13.1",
-    "ocaml/driver.ml (hand-written runner), harness/*.py (generators, judge), drivers/*.cpp, g++ 12.2",
+    "ocaml/common.ml + ocaml/h_*.ml (hand-written runner of the extracted model), harness/*.py (generators, judge), drivers/*.cpp, g++ 12.2",
     "the hand-written Model is tied to /repo only through the differential correspondence run here",
 ]
+
+
+def all_props():
+    import importlib
+    out = []
+    d = os.path.join(VERIF, "harness", "props")
+    for f in sorted(os.listdir(d)):
+        if re.match(r"c\d\d\.py$", f):
+            out.append(importlib.import_module("harness.props." + f[:-3]))
+    return out
